@@ -21,7 +21,7 @@ Qed.
 Print Assumptions C13src_totp.
 
 Theorem C13src_ocra : forall fuel junk jm secret code cfg i, runs fuel junk secret -> small_input i ->
-  verdict_ok (Src.ValidateOCRA fuel jm secret code cfg i).
+  verdict_ok (Src.ValidateOCRA fuel jm secret code (Some cfg) i).
 Proof.
   intros fuel junk jm secret code cfg i (Hf & Hfs & Hs & Hj) Hi. rewrite src_ValidateOCRA_eq by (assumption || lia).
   apply lift_v_verdict; [apply C13_verdict_ocra|].
